@@ -77,6 +77,10 @@ func doSession(rq *Req) *Resp {
 					dir = d
 					defer os.RemoveAll(dir)
 				}
+				for rel, text := range rq.Shared {
+					os.MkdirAll(filepath.Dir(filepath.Join(dir, rel)), 0o755)
+					os.WriteFile(filepath.Join(dir, rel), []byte(text), 0o644)
+				}
 				sub := filepath.Join(dir, fmt.Sprintf("t%02d", i))
 				os.MkdirAll(sub, 0o755)
 				os.WriteFile(filepath.Join(sub, "helper.pangaea"), []byte(rq.Helpers[i]), 0o644)
